@@ -46,6 +46,11 @@ type progCase struct {
 }
 
 func outcomeOf(p *resolve.Prog, files map[string]string, c *choice.Ctx) (string, string) {
+	return outcomeAt(resolve.Path(0), files, c)
+}
+
+// outcomeAt compiles the program starting from the given spelling of the root path.
+func outcomeAt(root string, files map[string]string, c *choice.Ctx) (string, string) {
 	vmap.Reset()
 	if c != nil {
 		vmap.Chooser = func(site string, n, nAlts int) int { return c.Deviate(nAlts, site) }
@@ -56,7 +61,7 @@ func outcomeOf(p *resolve.Prog, files map[string]string, c *choice.Ctx) (string,
 	var pan interface{}
 	func() {
 		defer func() { pan = recover() }()
-		m, err = compile.Compile(resolve.Path(0), compile.Filesystem(fs))
+		m, err = compile.Compile(root, compile.Filesystem(fs))
 	}()
 	vmap.Chooser = nil
 	if pan != nil {
@@ -159,6 +164,19 @@ func (r *runner) one(pc progCase) {
 		}
 	default:
 		w.Count("both_reject", 1)
+	}
+
+	// other spellings of the root path name the same file: same result, one module per file
+	if p.NFiles > 1 {
+		for _, root := range []string{"/m/./f0.thrift", "/m/x/../f0.thrift"} {
+			out, _ := outcomeAt(root, files, nil)
+			w.Count("root_path_spellings", 1)
+			if out != base {
+				w.Violation("root-path-spelling:"+pc.Layout, fmt.Sprintf("compiling the same program from root path %q gives %s instead of the result for %q; first difference %s; files %s",
+					root, strings.SplitN(out, "\n", 2)[0], resolve.Path(0), firstDiff(base, out), src), rep)
+				break
+			}
+		}
 	}
 
 	// all map orders within the deviation bound
@@ -508,6 +526,7 @@ func run(w *ev.W) {
 		return
 	}
 	w.Count("max_choice_depth", 0)
+	r.structFamily()
 	n := 0
 	enumerate(w, func(pc progCase) {
 		if r.stopped || !w.Own() {
